@@ -163,7 +163,7 @@ func main() {
 	prog, _ := ssautil.AllPackages(pkgs, ssa.NaiveForm)
 	prog.Build()
 	e := &Engine{prog: prog, fset: prog.Fset, d: NewDecls(), cs: cs, fnByKey: map[string]*ssa.Function{}, pkgByPath: map[string]*ssa.Package{},
-		srcCache: map[string][]string{}, typeIDs: map[string]int{}, immutableGlobals: map[*ssa.Global]bool{}, errGlobals: map[*ssa.Global]int{},
+		srcCache: map[string][]string{}, localOK: map[*ssa.Alloc]bool{}, typeIDs: map[string]int{}, immutableGlobals: map[*ssa.Global]bool{}, errGlobals: map[*ssa.Global]int{},
 		maxPaths: 6000, maxSteps: 400000, loopIdx: map[*ssa.Function]map[*ssa.BasicBlock]int{}, loopBlocks: map[*ssa.BasicBlock]map[*ssa.BasicBlock]bool{}, verbose: *verbose}
 	for _, sp := range prog.AllPackages() {
 		e.pkgByPath[shortPkg(sp.Pkg.Path())] = sp
